@@ -348,9 +348,9 @@ def check_clip(spec, ctx):
 
 
 SUBS = [
-    Sub("intervals_grid", check_grid, strategy=grid_interval_case, quick=60000, thorough=1500000, min_nontrivial=0.2),
-    Sub("intervals_free", check_free, strategy=free_interval_case, quick=40000, thorough=1000000, min_nontrivial=0.02),
+    Sub("intervals_grid", check_grid, strategy=grid_interval_case, quick=60000, thorough=500000, min_nontrivial=0.2),
+    Sub("intervals_free", check_free, strategy=free_interval_case, quick=40000, thorough=300000, min_nontrivial=0.02),
     Sub("threshold_errors", check_errors, strategy=error_case, quick=4000, thorough=40000),
-    Sub("geometry_overlap", check_geoms, strategy=geom_pair_case, quick=12000, thorough=300000, min_nontrivial=0.05),
-    Sub("is_in_clip", check_clip, strategy=clip_case, quick=16000, thorough=400000, min_nontrivial=0.1),
+    Sub("geometry_overlap", check_geoms, strategy=geom_pair_case, quick=12000, thorough=150000, min_nontrivial=0.05),
+    Sub("is_in_clip", check_clip, strategy=clip_case, quick=16000, thorough=200000, min_nontrivial=0.1),
 ]
